@@ -1,6 +1,6 @@
-(* split_at_large_gaps preserves the language of the pattern, provided the
-   pattern does not end with a jump over the chaining threshold; for a pattern
-   that does, the trailing jump is lost (split_preserves_language_refuted). *)
+(* split_at_large_gaps preserves the language of the pattern, for every list of
+   items (a pattern ending with a jump over the chaining threshold included:
+   the jump stays in the last piece; before commit c49f314d it was dropped). *)
 From Coq Require Import List NArith Bool Arith Lia.
 From YV Require Import Gen.PatConsts Pat.Syntax Pat.Sem Pat.Matcher Pat.MatcherProofs Pat.Chain.
 Import ListNotations.
@@ -143,95 +143,65 @@ Section Lang.
     - rewrite flat_map_app. cbn [flat_map jp fst snd app]. apply leq_refl.
   Qed.
 
-  Theorem split_preserves_language_chunks : forall items,
-    snd (fst (split_loop items (mkGap 0 None false) [] [])) <> [] ->
-    forall i j, M nc d (join_chain (split_at_large_gaps items)) i j <-> M nc d (rcat items) i j.
+  Theorem split_preserves_language : forall items i j,
+    M nc d (join_chain (split_at_large_gaps items)) i j <-> M nc d (rcat items) i j.
   Proof.
-    intros items Hne.
+    intros items.
     pose proof (split_loop_inv items (mkGap 0 None false) [] []) as Inv.
     unfold split_at_large_gaps.
     destruct (split_loop items (mkGap 0 None false) [] []) as [[g chunks] chain].
-    cbn [fst snd] in Hne. cbn [app denote] in Inv.
-    destruct chunks as [|c0 cs]; [congruence|]. set (chunks := c0 :: cs) in *.
-    assert (Hgoal : leq (denote chain g [rcat chunks]) items).
-    { eapply leq_trans; [|exact Inv]. apply denote_chunks_leq. apply leq_collapse. }
-    destruct (is_nil chain || long_enough (rcat chunks)) eqn:E.
-    - unfold join_chain. eapply leq_trans; [|exact Hgoal]. apply join_head_tail_snoc.
-    - apply orb_false_iff in E. destruct E as [En _].
+    cbn [app denote] in Inv.
+    destruct chunks as [|c0 cs].
+    - (* the pattern ends with a large gap: it is appended to the last piece *)
+      change trailing_gap_kept with true. cbv iota.
       destruct (rev chain) as [|[lg lh] rc] eqn:Er.
-      + destruct chain; [discriminate|]. apply (f_equal (@length _)) in Er.
-        rewrite rev_length in Er. discriminate.
+      + assert (chain = []) as -> by (rewrite <- (rev_involutive chain), Er; reflexivity).
+        cbn [denote] in Inv. unfold join_chain. cbn [fst snd flat_map].
+        eapply leq_trans; [|exact Inv]. intros i j. cbn [rcat]. tauto.
       + assert (Hc : chain = rev rc ++ [(lg, lh)]).
         { rewrite <- (rev_involutive chain), Er. reflexivity. }
         unfold join_chain. eapply leq_trans; [apply join_head_tail_snoc|].
-        eapply leq_trans; [|exact Hgoal]. rewrite Hc.
-        (* the merged last piece [lh; J g; hir] versus the piece lh followed by J g and hir *)
+        eapply leq_trans; [|exact Inv]. rewrite Hc.
         eapply leq_trans; [apply denote_chunks_leq; apply leq_collapse|].
         apply leq_sym. change lh with (rcat [lh]) at 1.
-        apply (denote_close (rev rc) lg [lh] g [rcat chunks]).
+        apply (denote_close (rev rc) lg [lh] g []).
+    - set (chunks := c0 :: cs) in *.
+      assert (Hgoal : leq (denote chain g [rcat chunks]) items).
+      { eapply leq_trans; [|exact Inv]. apply denote_chunks_leq. apply leq_collapse. }
+      destruct (is_nil chain || long_enough (rcat chunks)) eqn:E.
+      + unfold join_chain. eapply leq_trans; [|exact Hgoal]. apply join_head_tail_snoc.
+      + apply orb_false_iff in E. destruct E as [En _].
+        destruct (rev chain) as [|[lg lh] rc] eqn:Er.
+        * destruct chain; [discriminate|]. apply (f_equal (@length _)) in Er.
+          rewrite rev_length in Er. discriminate.
+        * assert (Hc : chain = rev rc ++ [(lg, lh)]).
+          { rewrite <- (rev_involutive chain), Er. reflexivity. }
+          unfold join_chain. eapply leq_trans; [apply join_head_tail_snoc|].
+          eapply leq_trans; [|exact Hgoal]. rewrite Hc.
+          (* the merged last piece [lh; J g; hir] versus the piece lh followed by J g and hir *)
+          eapply leq_trans; [apply denote_chunks_leq; apply leq_collapse|].
+          apply leq_sym. change lh with (rcat [lh]) at 1.
+          apply (denote_close (rev rc) lg [lh] g [rcat chunks]).
   Qed.
 End Lang.
 
-(* a syntactic sufficient condition for the guard *)
-Lemma split_loop_chunks_nonempty : forall items g chunks chain,
-  ends_with_big_gap items = false -> (items <> [] \/ chunks <> []) ->
-  snd (fst (split_loop items g chunks chain)) <> [].
-Proof.
-  induction items as [|item rest IH]; intros g chunks chain He Hne.
-  - cbn [split_loop fst snd]. destruct Hne as [H|H]; [congruence|exact H].
-  - assert (Hrest : rest = [] \/ ends_with_big_gap rest = false).
-    { destruct rest as [|r2 rest2]; [left; reflexivity|right].
-      cbn [ends_with_big_gap] in He. destruct item as [|?|? ?|? ?|x ? ? ?|?]; try exact He.
-      destruct x as [|c|? ?|? ?|? ? ? ?|?]; try exact He. destruct c; exact He. }
-    assert (Hpush : snd (fst (split_loop rest g (chunks ++ [item]) chain)) <> []).
-    { destruct Hrest as [->|Hr].
-      - cbn [split_loop fst snd]. destruct chunks; discriminate.
-      - apply IH; [exact Hr|]. right. destruct chunks; discriminate. }
-    cbn [split_loop].
-    destruct item as [|c|a b|a b|x mn mx gr|a]; try exact Hpush.
-    destruct x as [|c|? ?|? ?|? ? ? ?|?]; try exact Hpush.
-    destruct c; try exact Hpush.
-    destruct (negb (is_nil chunks) && big_gap mn mx) eqn:Eb; [|exact Hpush].
-    destruct Hrest as [->|Hr].
-    + (* the big gap is the last item: excluded by the hypothesis *)
-      cbn [ends_with_big_gap] in He. apply andb_true_iff in Eb. destruct Eb as [_ Eb]. congruence.
-    + destruct (long_enough (rcat chunks)).
-      * apply IH; [exact Hr|]. left. destruct rest; [|discriminate].
-        cbn [ends_with_big_gap] in Hr. discriminate || idtac.
-        (* rest = [] is impossible here: He would be about the single big gap *)
-        cbn [ends_with_big_gap] in He. apply andb_true_iff in Eb. destruct Eb as [_ Eb]. congruence.
-      * apply IH; [exact Hr|]. right. discriminate.
-Qed.
+(* the regexp of commit c49f314d: /abc.{5,300}/s keeps its trailing jump, so
+   "abc" alone is not matched any more while "abc12345" is *)
+Example trailing_gap_example :
+  let items := [RCls (CByte 97); RCls (CByte 98); RCls (CByte 99); RRep (RCls CAny) 5 (Some 300) true] in
+  split_at_large_gaps items =
+    (rcat [rcat [RCls (CByte 97); RCls (CByte 98); RCls (CByte 99)]; RRep (RCls CAny) 5 (Some 300) true], []) /\
+  ends false [97; 98; 99]%N (join_chain (split_at_large_gaps items)) 0 = [] /\
+  ends false [97; 98; 99; 1; 2; 3; 4; 5]%N (join_chain (split_at_large_gaps items)) 0 = [8].
+Proof. vm_compute. repeat split. Qed.
 
-Theorem split_preserves_language : forall nc d items,
-  items <> [] -> ends_with_big_gap items = false ->
-  forall i j, M nc d (join_chain (split_at_large_gaps items)) i j <-> M nc d (rcat items) i j.
-Proof.
-  intros nc d items Hne He. apply split_preserves_language_chunks.
-  apply split_loop_chunks_nonempty; [exact He|left; exact Hne].
-Qed.
-
-(* Without the guard the statement is false: /abc.{5,300}/s is split into the
-   single piece "abc" and the trailing jump is lost, so "abc" alone matches. *)
-Theorem split_preserves_language_refuted :
-  exists nc d items i j,
-    M nc d (join_chain (split_at_large_gaps items)) i j /\ ~ M nc d (rcat items) i j.
-Proof.
-  exists false, [97; 98; 99]%N,
-         [RCls (CByte 97); RCls (CByte 98); RCls (CByte 99); RRep (RCls CAny) 5 (Some 300) true], 0, 3.
-  split.
-  - apply ends_spec. vm_compute. left. reflexivity.
-  - intro H. apply ends_spec in H. vm_compute in H. exact H.
-Qed.
-
-(* the hypotheses of the theorem are satisfiable, and a real split happens *)
+(* a real split happens *)
 Example split_example :
   let items := [RCls (CByte 1); RCls (CByte 2); RRep (RCls CAny) 0 (Some 300) false; RCls (CByte 3); RCls (CByte 4)] in
-  items <> [] /\ ends_with_big_gap items = false /\
   split_at_large_gaps items =
     (RCat (RCls (CByte 1)) (RCls (CByte 2)),
      [(mkGap 0 (Some 300) false, RCat (RCls (CByte 3)) (RCls (CByte 4)))]).
-Proof. vm_compute. repeat split. discriminate. Qed.
+Proof. vm_compute. reflexivity. Qed.
 
 (* below the threshold nothing is split: max - min = 200 is not "greater than" *)
 Example no_split_at_threshold :
